@@ -17,8 +17,9 @@ PROPS = {
         "coq_deps": ["MarkerFacts"],
         "steps": [
             {"sub": "markers", "quick": [0], "thorough": [1]},
+            {"sub": "advdir", "quick": [0], "thorough": [1]},
         ],
-        "rule": "get_marker_versions on every triple s<=n<=E up to the tier's bound, degenerate (panicking) arguments and "
+        "rule": "(advdir step: on trees built by a dishonest server - a superseded version retired late or never - the real verifiers must not accept a complete history and a lookup naming different latest versions under one root) get_marker_versions on every triple s<=n<=E up to the tier's bound, degenerate (panicking) arguments and "
                 "structured 64-bit triples around powers of two and skip-list elements, each answer recomputed by the extracted "
                 "Coq model; plus the property itself evaluated on the implementation's outputs: every quadruple (E,n,m,s') for "
                 "history/history and every triple (E,n,m) for lookup/history (kf_K1 lines, classified by the model's K1_class)",
@@ -60,6 +61,7 @@ PROPS = {
         "assumptions": ["each storage operation is atomic (DashMap / RwLock); concurrent read-fill racing a write-through is outside this model (see DESIGN.md K3)"],
     },
     "C01": {
+        "spec_ops": ["specroot"],
         "coq_deps": ["DirFacts", "Spec"],
         "steps": [{"sub": "dirs", "quick": [0], "thorough": [1]}],
         "rule": "random publish histories on the real Directory (both configurations; cached/uncached; sequential/parallel insertion; labels incl. empty, 1-byte, prefix-related and 330-byte; values incl. empty and 1500-byte; inserts, updates, re-submissions, no-op and duplicate-label batches): after every publish the full database (every node record, the epoch record, every value state) and the returned epoch hash are recomputed by the extracted model; the root hash is recomputed from the history alone by the canonical-trie specification (specroot); every lookup, key-history (Complete, MostRecent 1/n/n+3/random) and audit proof is compared structurally with the model's and its verification verdict and result with the model verifier's; ground truth from an independent version table",
